@@ -24,6 +24,7 @@ type Clause struct {
 
 type LoopSpec struct {
 	Invariants []*Clause
+	Steps      []*Clause // transition invariants: checked at every back edge, prev(e) = value at the header
 	Decreases  *Clause
 	Unroll     bool
 }
@@ -218,6 +219,12 @@ func (cs *Contracts) loadFile(file, pkgPath, pkgName string) error {
 					return err
 				}
 				ls.Invariants = append(ls.Invariants, c)
+			case "step":
+				c, err := mk("step", body)
+				if err != nil {
+					return err
+				}
+				ls.Steps = append(ls.Steps, c)
 			case "decreases":
 				c, err := mk("decreases", body)
 				if err != nil {
